@@ -480,26 +480,10 @@ impl<'r, D: Doc> Node<'r, D> {
     })
   }
 
-  #[cfg(not(target_arch = "wasm32"))]
-  pub fn prev_all(&self) -> impl Iterator<Item = Node<'r, D>> + '_ {
-    // if root is none, use self as fallback to return a type-stable Iterator
-    let parent = self.parent();
-    // a node without parent has no sibling
-    let has_parent = parent.is_some();
-    let node = parent.unwrap_or_else(|| self.clone());
-    let mut cursor = node.inner.walk();
-    cursor.goto_first_child_for_byte(self.inner.start_byte());
-    std::iter::from_fn(move || {
-      if has_parent && cursor.goto_previous_sibling() {
-        Some(self.root.adopt(cursor.node()))
-      } else {
-        None
-      }
-    })
-  }
-
-  // wasm32 has wrong goto_first_child_for_byte
-  #[cfg(target_arch = "wasm32")]
+  /// Returns all sibling nodes before `self`, nearest first.
+  // A tree cursor is not used here: on trees with recovery (ERROR) nodes
+  // `goto_previous_sibling` can land on a descendant of the previous sibling,
+  // which is not a sibling at all. The sibling links of the nodes are reliable.
   pub fn prev_all(&self) -> impl Iterator<Item = Node<'r, D>> + '_ {
     let mut node = self.clone();
     std::iter::from_fn(move || {
